@@ -809,7 +809,7 @@ def body(ck: common.Check):
     ck.obligations(["PyxelModel.Props.C11"], ["PyxelModel.Drive.C11"])
     rng = ck.rng
     quick = ck.tier == "quick"
-    rcases = [gen_ranges_case(rng) for _ in range(150 if quick else 3200)]
+    rcases = [gen_ranges_case(rng) for _ in range(120 if quick else 3200)]
     # the two documented end-point patterns, always present
     rcases.append({"stream": "ranges", "multi": False, "target_shape": [6, 6], "det": [6, 6], "times": 1,
                    "target_range": [0, 5, 0, 5], "result_range": [2, 5, 0, 5], "relation": "unequal"})
@@ -872,7 +872,7 @@ def body(ck: common.Check):
             if e is not None and "fitness" in impl and not feq(impl["fitness"][i], m):
                 ck.disagreement("fitness", case, impl["fitness"][i], ans["model"])
     # ---- histories: equally named files under different working directories
-    for i in range(6 if quick else 40):
+    for i in range(4 if quick else 40):
         wc = gen_workdirs_case(rng, i)
         impl = run_workdirs(wc)
         ck.case(wc, nontrivial=True, stream="workdirs")
